@@ -50,6 +50,18 @@ Fixpoint partial_met (fuel : nat) (t : table) (w : wmap) (size : Q) (mask : opti
                    || match removed_once t w size mask with [] => false | _ => partial_met f (prune_once t w size mask) w size mask end
   | _, _ => false
   end.
+(* some pruning round meets an UNBRANCHED fragment (no terminal branch at all) whose tip lies in the mask: the situation of the
+   known finding C12:twigs-mask-unbranched-fragment, also when the fragment only becomes unbranched in a later round *)
+Definition chain_tip_masked (m : list Z) (t : table) : bool :=
+  existsb (fun r => match twig_walk t (anc t (rid r)) with None => memZ (rid r) m | Some _ => false end) (leaf_rows t).
+Fixpoint chain_met (fuel : nat) (t : table) (w : wmap) (size : Q) (mask : option (list Z)) : bool :=
+  match fuel, mask with
+  | S f, Some m => chain_tip_masked m t
+                   || match removed_once t w size mask with [] => false | _ => chain_met f (prune_once t w size mask) w size mask end
+  | _, _ => false
+  end.
+Definition chain_mask_met (rounds : option nat) (t : table) (w : wmap) (size : Q) (mask : option (list Z)) : bool :=
+  match rounds with Some k => chain_met (S k) t w size mask | None => chain_met (S (length t)) t w size mask end.
 Definition partial_mask_met (rounds : option nat) (t : table) (w : wmap) (size : Q) (mask : option (list Z)) : bool :=
   match rounds with Some k => partial_met (S k) t w size mask | None => partial_met (S (length t)) t w size mask end.
 
